@@ -152,6 +152,24 @@ def run_case(case, ctx):
 		_compare(np, got, exp, k, 'generator', case)
 		got = _call(lambda: calc_signature(kspec, tuple(seqs)), 'tuple', case)
 		_compare(np, got, exp, k, 'tuple', case)
+		# an accumulator object that is used again: after clear() it starts from nothing, without clear() it keeps what it has
+		if len(seqs) >= 2:
+			first, rest = seqs[:1], seqs[1:]
+			exp_first, exp_rest = R.ref_signature(first, k, pb), R.ref_signature(rest, k, pb)
+			for aname, mk in accs:
+				if aname == 'default':
+					continue
+				acc = mk()
+				got = _call(lambda: calc_signature(kspec, first, accumulator=acc), f'{aname}: first use', case)
+				_compare(np, got, exp_first, k, f'{aname}: first use', case)
+				got = _call(lambda: calc_signature(kspec, rest, accumulator=acc), f'{aname}: second use without clear', case)
+				_compare(np, got, sorted(set(exp_first) | set(exp_rest)), k, f'{aname}: second use of the same accumulator without clear() (union expected)', case)
+				_call(acc.clear, f'{aname}.clear()', case)
+				got = _call(lambda: calc_signature(kspec, rest, accumulator=acc), f'{aname}: use after clear', case)
+				_compare(np, got, exp_rest, k, f'{aname}: use after clear()', case)
+				_call(acc.clear, f'{aname}.clear()', case)
+				got = _call(lambda: acc.signature(), f'{aname}: signature() after clear', case)
+				_compare(np, got, [], k, f'{aname}: signature() right after clear()', case)
 		# one-shot iterables together with each explicit accumulator
 		for aname, mk in accs:
 			if aname == 'default':
